@@ -308,6 +308,89 @@ def every_iteration(scope, node):
     return True, ""
 
 
+def binding_site(root, hid):
+    """Where is local `hid` bound?  → (pattern that contains the binding, scrutinee/initialiser expression, kind) with kind in
+    'let' | 'iflet' | 'match' | 'param-or-unknown'.  Handles `let P = e [else {..}]`, `if let P = e`, `match e { P => .. }`."""
+    for n in walk(root):
+        k = n.get("k")
+        if k == "Let" and "init" in n and any(b.get("k") == "Binding" and b.get("hid") == hid for b in walk(n["pat"])):
+            return n["pat"], n["init"], "let"
+        if k == "LetExpr" and any(b.get("k") == "Binding" and b.get("hid") == hid for b in walk(n["pat"])):
+            return n["pat"], n["init"], "iflet"
+        if k == "Match":
+            for arm in n["arms"]:
+                if any(b.get("k") == "Binding" and b.get("hid") == hid for b in walk(arm["pat"])):
+                    return arm["pat"], n["scrut"], "match"
+    return None, None, "param-or-unknown"
+
+
+def field_of_pattern_binding(root, e, field):
+    """Does expression `e` denote field `field` of a value destructured by a pattern — either the binding that the pattern
+    gives to that field (`Kind::Import(S { field, .. })`) or `b.field` where `b` binds the whole payload (`Kind::Import(b)`)?
+    → (pattern, scrutinee) of the binding site, or (None, None)."""
+    e = peel(e)
+    while isinstance(e, dict) and e.get("k") == "MethodCall" and e.get("method") in ("clone", "to_owned"):
+        e = peel(e["recv"])
+    if isinstance(e, dict) and e.get("k") == "Field" and e["name"] == field:
+        b = peel(e["base"])
+        if b.get("k") == "Path" and b.get("res", {}).get("r") == "local":
+            pat, scr, _ = binding_site(root, b["res"]["hid"])
+            return pat, scr
+    if isinstance(e, dict) and e.get("k") == "Path" and e.get("res", {}).get("r") == "local":
+        hid = e["res"]["hid"]
+        pat, scr, _ = binding_site(root, hid)
+        if pat is not None:
+            for s_ in walk(pat):
+                if s_.get("k") == "Struct" and isinstance(s_.get("fields"), list):
+                    for item in s_["fields"]:
+                        if isinstance(item, list) and item[0] == field and any(b.get("k") == "Binding" and b.get("hid") == hid for b in walk(item[1])):
+                            return pat, scr
+    return None, None
+
+
+def guard_conditions(root, node):
+    """Conditions known to hold when `node` executes, as a list of (polarity, condition expression):
+    enclosing `if c` (then: +c, else: −c), and *preceding guard clauses* in enclosing blocks — `if c { diverge }` gives −c.
+    Pattern tests (if-let / match arms / let-else) are reported as ('pat', (pattern, scrutinee))."""
+    out = []
+    p = path_to(root, node)
+    if p is None:
+        return out
+    for i, (n, role) in enumerate(p):
+        if not isinstance(n, dict) or i + 1 >= len(p):
+            continue
+        child, crole = p[i + 1]
+        k = n.get("k")
+        if k == "If" and crole in ("then", "else"):
+            c = peel(n["cond"])
+            if c.get("k") == "LetExpr":
+                if crole == "then":
+                    out.append(("pat", (c["pat"], c["init"])))
+            else:
+                out.append((crole == "then", n["cond"]))
+        elif k == "Match" and crole == "arms":
+            for arm in n["arms"]:
+                if any(x is node for x in walk(arm["body"])):
+                    out.append(("pat", (arm["pat"], n["scrut"])))
+        elif k == "Block":
+            # statements before the one that leads to `node`
+            stmts = n.get("stmts") or []
+            nxt = p[i + 1][0]
+            for st in stmts:
+                if st is nxt or any(x is nxt for x in ([st] if st is nxt else [])):
+                    break
+                if any(x is node for x in walk(st)):
+                    break
+                e_ = st.get("e") if st.get("k") in ("Semi", "Expr") else None
+                if isinstance(e_, dict) and e_.get("k") == "If" and "else" not in e_ and diverges(e_["then"]):
+                    c = peel(e_["cond"])
+                    if c.get("k") != "LetExpr":
+                        out.append((False, e_["cond"]))
+                if st.get("k") == "Let" and "else" in st and "init" in st:
+                    out.append(("pat", (st["pat"], st["init"])))
+    return out
+
+
 def pat_variants(p):
     """Set of (adt, variant) a pattern matches at its top level (through Or/Ref/Deref/Box/Binding@),
     plus flag whether it contains a catch-all at that level."""
